@@ -4,6 +4,7 @@ the checks that found it must report it again. Fire lists observed by running ev
 UNFIX = [
   ("unfix_edf71a8.diff", ['C16']),
   ("unfix_523d33e.diff", ['C12', 'C24']),
+  ("unfix_7e84739.diff", ['C07']),
   ("unfix_19e00e5.diff", ['C16']),
   ("unfix_3daf361.diff", ['C36']),
   ("unfix_439deab.diff", ['C12']),
